@@ -220,6 +220,9 @@ Definition set_end s ac fe st := St (s_cfg s) (s_range s) (s_offs s) (s_dirty s)
 (* setOffset (stream.go l.88-109): range guard, regression guard, TrackOffset, dirty mark.
    The dirty mark also raises the "any dirty" flag (repaired defect K2, see known_findings.json). *)
 Definition set_offset (s : sstate) (vb : N) (o : offset) (dirty : bool) : sstate * list out :=
+  (* while the stream is closed (observers == nil: between the close and the reopen of a rebalance, after the
+     shutdown) there is no session the position belongs to: nothing is tracked (repaired defect K8) *)
+  if s_obs_nil s then (s, []) else
   if in_range (s_range s) vb then
     let accept :=
       let s1 := set_offs s (fupd (s_offs s) vb o) in
